@@ -172,6 +172,68 @@ theorem C07_sound_jws (e : Jws.Env) (ci : ChainInfo) (c : Content)
         · left; exact mustSub l h'
         · right; exact h'
 
+/-- **C07 (JWS, every critical label names a header that is there)**: each entry of the signed
+    `crit` array — whether it names an extended attribute or one of the specification's own
+    headers — is the name of a member of the protected header -/
+theorem C07_crit_present_jws (e : Jws.Env) (ci : ChainInfo) (c : Content)
+    (hv : wrapRead false ci (Jws.content e) = .val c) :
+    ∃ ms h, Jws.membersOf e.prot = some ms ∧ Jws.decodeHdr ms {} = some h ∧
+      ∀ l ∈ h.crit, l ∈ ms.map (·.key) := by
+  obtain ⟨_, hinner, hval⟩ := wrapRead_inv _ _ _ _ hv
+  obtain ⟨ms, h, alg, a1, a2, a3, _, _, a6⟩ := content_inv e c hinner
+  refine ⟨ms, h, a1, a2, ?_⟩
+  obtain ⟨p1, p2, p3, _⟩ := decodeHdr_provenance ms {} h a2
+  unfold Jws.gates1 at a3
+  simp only [Bool.and_eq_true] at a3
+  obtain ⟨⟨⟨_, _⟩, hs⟩, hcr⟩ := a3
+  unfold Jws.critOK at hcr
+  simp only [Bool.and_eq_true] at hcr
+  obtain ⟨_, hloop⟩ := hcr
+  cases hl : Jws.critLoop ((Jws.extMembers ms).map (·.key)) h.crit (Jws.mustCrit h) with
+  | none => rw [hl] at hloop; cases hloop
+  | some rem =>
+    obtain ⟨cr1, _⟩ := critLoop_spec _ _ _ _ hl
+    intro l hlc
+    rcases cr1 l hlc with h' | h'
+    · -- a required header: it is required because its field was set by a member
+      unfold Jws.mustCrit at h'
+      simp only [List.mem_append, List.mem_cons, List.mem_nil_iff, or_false] at h'
+      unfold Jws.schemeOK at hs
+      rcases h' with (h' | h') | h'
+      · subst h'
+        apply p1
+        intro heq
+        have : h.scheme = "" := heq
+        rw [this] at hs
+        simp [schemeX509, schemeAuthority, Generated.schemeX509, Generated.schemeSigningAuthority] at hs
+      · cases he : h.expiry with
+        | none => rw [he] at h'; cases h'
+        | some t =>
+          rw [he] at h'
+          simp only [] at h'
+          split at h'
+          · simp only [List.mem_cons, List.mem_nil_iff, or_false] at h'
+            subst h'
+            apply p2
+            rw [he]; intro hx; cases hx
+          · cases h'
+      · split at h'
+        · rename_i ha
+          simp only [List.mem_cons, List.mem_nil_iff, or_false] at h'
+          subst h'
+          apply p3
+          have hx : (h.scheme == schemeX509) = false := by
+            have : h.scheme = schemeAuthority := by simpa using ha
+            rw [this]; decide
+          simp only [hx, Bool.false_eq_true, if_false, ha, if_true, Bool.and_eq_true] at hs
+          intro heq
+          have : h.authSigningTime = none := heq
+          rw [this] at hs
+          simp at hs
+        · cases h'
+    · obtain ⟨m, hm, rfl⟩ := List.mem_map.mp h'
+      exact List.mem_map.mpr ⟨m, extMembers_subset ms m hm, rfl⟩
+
 /-- **C07 (verify implies content)**: a successful verification implies content extraction
     succeeds with an identical result — both formats -/
 theorem C07_verify_implies_content_jws (e : Jws.Env) (ci : ChainInfo) (c : Content)
